@@ -4,8 +4,8 @@
 legs: MC   TLC checks mechanism (conversions; transfer; summarize | truncate; conversions | transfer, then the filter) =>
            the declarative period-report clauses for all small ledgers, all 8 clause subsets, CLOSE bare / dated, dates
            before / inside / after / equal to entry dates.  Non-vacuity: CLEAR before CLOSE, CLEAR before and after CLOSE,
-           CLOSE before OPEN, filter before the clauses, and the compile step as shipped (OPEN + bare CLOSE crashes) must
-           each be rejected by TLC.
+           CLOSE before OPEN, filter before the clauses, and the compile step as shipped before the repair 41a2136 (OPEN +
+           bare CLOSE crashed with TypeError) must each be rejected by TLC.
       S2C  TLC emits (ledger, clauses, filter) with what the statement determines of the returned rows (original postings
            kept, totals of the non-Equity positions, value at cost of all rows, every transaction balanced); the driver
            builds the ledger with beancount.core.data, runs SELECT / BALANCES / JOURNAL through the API and PRINT through
@@ -30,7 +30,7 @@ BASE = 1000000
 DAY0 = datetime.date(2020, 1, 1)
 LOT_DATE = datetime.date(2019, 12, 31)
 SYNTH = ('S', 'T', 'C')
-KNOWN_BARE = 'from:open+bare-close:TypeError'
+KNOWN_BARE = 'from:open+bare-close:TypeError'       # the defect repaired by /repo 41a2136; reported under this key if it returns
 
 COLUMNS = ('entry, date, flag, narration, account, number, currency, cost_number, cost_currency, cost_date, '
            'cost_label, price')
@@ -158,8 +158,7 @@ def build_model_ledger(ledger, keys):
 def lot_of(cost_number, cost_currency, cost_date, cost_label):
     if cost_number is None:
         return ''
-    return '%s %s %s %s' % (cost_number.normalize() if cost_number == cost_number.to_integral() else cost_number,
-                            cost_currency, cost_date, cost_label or '')
+    return '%s %s %s %s' % (format(norm(cost_number), 'f'), cost_currency, cost_date, cost_label or '')
 
 
 def norm(x):
@@ -818,7 +817,7 @@ def c2s(ctx):
             nlines += record_ledger(ctx, f, nled, entries, opts, configs, False, ctx.pick(4, 4), ctx.pick(4, 4), counters)
         n_example = counters['id']
         # seeded random ledgers
-        for i in range(ctx.pick(40, 500)):
+        for i in range(ctx.pick(32, 500)):
             entries = random_ledger(ctx.rng, ctx.rng.choice([0, 1, 3, 8, 20, 40, 60]), ctx.rng.choice([5, 30, 120]))
             configs = pick_configs(ctx.rng, entries, ctx.pick(12, 16))
             nled += 1
